@@ -1919,6 +1919,29 @@ def c02_cases(tier, seed):
         chunks = [b"".join(p_tty.key_bytes(k) for k in cmd.keys) for cmd in cmds]
         cases.append(script_case(cmds, mode=mode, cols=cols, prompt=prompt, hints=hints, chunks=chunks,
                                  timeout=0 if mode == "vi" else rng.choice(["none", 0])))
+    # a validator message shown while the cursor is INSIDE the line (Enter there), text + message wrapping around a narrow
+    # window, then repaints in that state: motions, insertions, deletions, another Enter
+    for i in range(max(8, n // 12)):
+        cols = [8, 10, 12, 20][i % 4]
+        prompt = rng.choice(["", "> "])
+        body = p_tty.rand_text(rng, 1, 4, ["a", "b", "x"]) + "!!" + p_tty.rand_text(rng, 2, 2 * cols, ["c", "d", " ", "e"])
+        cmds = [Cmd([ch], "ins", c=ord(ch), n=1) for ch in body]
+        cmds += [Cmd(["Left"], "motion")] * rng.randint(1, min(len(body), cols + 3)) if i % 3 else [Cmd(["C-a"], "motion")]
+        cmds.append(Cmd(["Enter"], "enter"))
+        for _ in range(rng.randint(1, 5)):
+            r = rng.random()
+            if r < 0.35:
+                cmds.append(Cmd([rng.choice(["Left", "Right", "C-a", "C-e"])], "motion"))
+            elif r < 0.7:
+                c = rng.choice(["a", "x", "y"])
+                cmds.append(Cmd([c], "ins", c=ord(c), n=1))
+            elif r < 0.85:
+                cmds.append(Cmd([rng.choice(["Backspace", "C-d", "C-k"])], "edit"))
+            else:
+                cmds.append(Cmd(["Enter"], "enter"))
+        cmds += [Cmd(["F12"], "noop"), Cmd(["C-a"], "motion"), Cmd(["C-k"], "edit"), Cmd(["Enter"], "enter")]
+        chunks = [b"".join(p_tty.key_bytes(k) for k in cmd.keys) for cmd in cmds]
+        cases.append(script_case(cmds, mode="emacs", cols=cols, prompt=prompt, validator="script", chunks=chunks, timeout="none"))
     return cases
 
 
@@ -1957,6 +1980,7 @@ def eval_c02(res, cases_out, stream, width):
         prompt = strip_ansi([ord(ch) for ch in c.prompt])
         scr = vt.Screen(c.cols, width, int(c.meta.get("tab_stop", 8)))
         fed = base
+        msg_state = None
         nobs_before = [sum(1 for l in raw["obs"][:m] if l.startswith("K ")) for m in omarks]
         # marks[k] / omarks[k]: output length and observation count once chunk k-1 has been consumed (k=0: start-up)
         for k in range(len(marks)):
@@ -1975,8 +1999,33 @@ def eval_c02(res, cases_out, stream, width):
                 continue
             cmd, (text, pos), after, ob = t.steps[j]
             hint = ob[5] or []
+            alt = None
+            if j > 0 and c.validator != "none" and t.steps[j - 1][0].tag == "enter":
+                # an Enter the validator answered with Invalid + message: the message is shown where a hint would be
+                verdict = VERDICTS.get(c.validator, verdict_brackets)(t.steps[j - 1][1][0])
+                msg_state = None
+                if verdict[0] == "invalid" and verdict[1]:
+                    msg_state = ((text, pos), [ord(ch) for ch in verdict[1]])
+                    hint = msg_state[1]
+                    stats["validator_messages"] = stats.get("validator_messages", 0) + 1
+            elif msg_state and j > 0:
+                # C02 speaks of prompt + line (+ hint); a validator's message stays on the screen until the next FULL repaint
+                # (a cursor motion only moves the cursor, a character appended at the end is only written): until a command
+                # that certainly repaints everything (the text changed otherwise than by an insertion at its end) the screen
+                # may show the message or not, and after an appended character it is not judged
+                ptext, ppos = t.steps[j - 1][1]
+                if ptext == text and msg_state[1] is not None:
+                    alt = msg_state[1]
+                elif ptext == text or (t.steps[j - 1][0].tag == "ins" and ppos == cp_blen(ptext)):
+                    msg_state = (None, None)       # characters were written over the message: until the next full repaint
+                    stats["after_message_not_judged"] = stats.get("after_message_not_judged", 0) + 1
+                    continue
+                else:
+                    msg_state = None
             pre, suf = split_at(text, pos)
             rows, cur, cur_next, exp = vt.layout(c.cols, width, prompt + pre, suf, hint, tab=int(c.meta.get("tab_stop", 8)))
+            if alt is not None and scr.text_rows() != rows:
+                rows, cur, cur_next, exp = vt.layout(c.cols, width, prompt + pre, suf, alt, tab=int(c.meta.get("tab_stop", 8)))
             if exp.known_class:
                 # recorded findings: rustyline's row arithmetic and the terminal disagree on these texts, and what is
                 # drawn afterwards is affected too: the rest of this script is not judged
